@@ -39,6 +39,10 @@ Definition is_build_write (s : site) : bool := match skind s with SLock true _ =
 Definition is_ctx_use (s : site) : bool := match skind s with SCtxUse _ => true | _ => false end.
 Definition is_static (s : site) : bool := match skind s with SStatic _ => true | _ => false end.
 
+(* one lock operation of a code region, as extracted from the source (Gen/SyncSites.v: invocable_open .. closure_close):
+   acquisition / release of a read or write guard on a lock receiver, or the place where the decision logic runs *)
+Inductive lockop := LAcq (is_write : bool) (lock : nat) | LRel (is_write : bool) (lock : nat) | LStep.
+
 (* ---------------- search for a stuck schedule of the program a call path describes ---------------- *)
 (* one thread running the nested call: acquire along the path, one step, release in reverse order *)
 Definition path_thread (path : list (bool * lockid)) : thread unit nat :=
